@@ -2,6 +2,7 @@
 import warnings
 warnings.simplefilter("ignore")
 from unittest.mock import Mock
+import access as X
 
 
 def show_frame(fr):
@@ -64,8 +65,8 @@ def make_proto(log, raise_on=None, open_transport=True, pack_seq=0, ack_event="n
         asyncio.set_event_loop(asyncio.new_event_loop())
     proto = U.ZbossNcpProtocol(cfg[conf.CONF_DEVICE], api)
     if open_transport:
-        proto._transport = Wire(log)
-    proto._pack_seq = pack_seq
+        X.pset(proto, "transport", Wire(log))
+    X.pset(proto, "pack_seq", pack_seq)
     if ack_event != "n":
         ev = asyncio.Event()
         if ack_event == "1":
@@ -76,8 +77,9 @@ def make_proto(log, raise_on=None, open_transport=True, pack_seq=0, ack_event="n
             log.append("A")
             orig()
         ev.set = set_
-        proto._ack_received_event = ev
-    proto._buffer += buf
+        X.pset(proto, "ack_event", ev)
+    b_ = X.pget(proto, "buffer")
+    b_ += buf
     return proto, api
 
 
@@ -96,9 +98,9 @@ def run_rx(chunks, pack_seq=0, ack_event="n", open_transport=True, buf=b"", rais
             parts.append(raised + ";".join(log) + "<" + exc_kind(e) + ">")
             continue
         parts.append(";".join(log))
-    ev = proto._ack_received_event
+    ev = X.pget(proto, "ack_event")
     evs = "n" if ev is None else ("1" if ev.is_set() else "0")
-    return " / ".join(parts) + " // seq=%d ev=%s buf=%s" % (proto._pack_seq, evs, bytes(proto._buffer).hex() or "-"), proto
+    return " / ".join(parts) + " // seq=%d ev=%s buf=%s" % (X.pget(proto, "pack_seq"), evs, bytes(X.pget(proto, "buffer")).hex() or "-"), proto
 
 
 def ref_crc8(data):
@@ -144,8 +146,9 @@ def stamp_all(frames, seq, force_blackbox=False):
     sent and left to expire."""
     log = []
     proto, _ = make_proto(log, pack_seq=seq)
-    if not force_blackbox and hasattr(proto, "_set_frame_flag") and hasattr(proto, "_ll_checksum"):
-        return [bytes(proto._ll_checksum(proto._set_frame_flag(f)).serialize()) for f in frames]
+    st = None if force_blackbox else X.stampers(proto)
+    if st is not None:
+        return [bytes(st[1](st[0](f)).serialize()) for f in frames]
     import asyncio
     import zigpy_zboss.config as conf
     import zigpy_zboss.types as t
